@@ -240,3 +240,51 @@ def make_baseline():
     for rid, sec in new.items():
         print(rid, "entries", len(sec), "sites(union)", sum(e["n"].get("union", 0) for e in sec.values()),
               "confirmed", sum(1 for e in sec.values() if e["status"] == "confirmed"))
+
+
+def run_engine_fixture(chk, rid="engine-fixture"):
+    """The analysis that discharges sites is itself checked on every run against a fixture crate: every `bad_*` function
+    holds one site that is unsafe for some input and must stay unproven (a trap for an unsound shortcut), every `good_*`
+    function holds only safe sites that must be proved.  A failure here means the checker, not /repo, is broken."""
+    from ..facts import Facts
+    from .. import intervals
+    chk.rule(rid, "engine self-check on fixtures/engine: each trap (`bad_*`) keeps an unproven site, each safe idiom (`good_*`) "
+                  "is fully proved")
+    facts = Facts("fixture:engine", callgraph=False)
+    # the whole-crate side analyses run on the fixture too (and are restored afterwards)
+    saved = (dict(intervals.FIELD_RANGES), set(intervals.COUNTER_FIELDS), dict(intervals.RET_RANGES))
+    try:
+        from .. import counters, fieldinv, retsum
+        intervals.COUNTER_FIELDS.clear()
+        intervals.COUNTER_FIELDS.update(counters.compute(facts))
+        intervals.FIELD_RANGES.clear()
+        intervals.FIELD_RANGES.update(fieldinv.infer(facts))
+        intervals.RET_RANGES.clear()
+        intervals.RET_RANGES.update(retsum.compute(facts))
+        nb = ng = 0
+        for b in facts.all_bodies(facts.crates[0]):
+            name = b.path.split("::")[-1]
+            if "{closure" in b.path or not (name.startswith("bad_") or name.startswith("good_")):
+                continue
+            res = check_zone([b])
+            bad = [s for s in res.sites if not s["ok"]]
+            if name.startswith("bad_"):
+                nb += 1
+                chk.ob(rid, f"trap {name}: {len(bad)} unproven of {len(res.sites)} site(s)", len(bad) >= 1, key=f"trap|{name}",
+                       file=b.file, line=b.lo, fn=b.path,
+                       detail="the interval engine proved a site that is unsafe for some input: the engine is unsound "
+                              "(this is a defect of the checker, not of /repo)")
+            else:
+                ng += 1
+                chk.ob(rid, f"idiom {name}: {len(res.sites) - len(bad)} of {len(res.sites)} site(s) proved", not bad and bool(res.sites),
+                       key=f"idiom|{name}", file=b.file, line=b.lo, fn=b.path,
+                       detail="a standard safe idiom is no longer proved: " + "; ".join(s["why"] for s in bad)[:200])
+        chk.floor(rid, "traps", nb, 19)
+        chk.floor(rid, "safe idioms", ng, 10)
+    finally:
+        intervals.FIELD_RANGES.clear()
+        intervals.FIELD_RANGES.update(saved[0])
+        intervals.COUNTER_FIELDS.clear()
+        intervals.COUNTER_FIELDS.update(saved[1])
+        intervals.RET_RANGES.clear()
+        intervals.RET_RANGES.update(saved[2])
